@@ -37,6 +37,8 @@ def run_history(cfg, ops):
     with C.scratch() as folder:
         cfg2 = dict(cfg, saving_folder=str(folder / "ckpt"))
         samplers = None
+        if cfg.get("edit_list"):
+            samplers = [C.make_sampler(s_) for s_ in lineup]   # the caller keeps this very list object and edits it later (op 'e')
         if cfg.get("same_instance"):
             # the line-up lists the SAME sampler object more than once (cfg['same_instance'] maps a position to the position whose object it reuses)
             samplers = [C.make_sampler(s_) for s_ in lineup]
@@ -57,6 +59,13 @@ def run_history(cfg, ops):
                     cal = C.restore(folder / "ckpt", cfg2)
                     in_force = saved
                     del per_batch[cal.current_batch_index:]
+                elif op[0] == "e":
+                    # the caller re-uses HIS list to prepare something else (appends / reverses it): the calibrator's line-up is the one it
+                    # was given at construction, a later edit of the caller's list is none of its business
+                    if op == "e0":
+                        samplers.append(C.make_sampler({"cls": "RSequenceB", "bs": 3}))
+                    else:
+                        samplers.reverse()
                 elif op[0] == "s":
                     in_force = cfg["alt_lineups"][int(op[1])]
                     cal.set_samplers([C.make_sampler(s_) for s_ in in_force])
@@ -95,7 +104,7 @@ def run_history(cfg, ops):
                 v.append(("rr-batch-size", f"ops={ops}: batch {i} contributed {rows} rows, sampler #{i % n} has batch_size {exp['bs']}"))
                 break
             ids = set(cal.method_samp[cal.batch_num_samp == i].tolist())
-            if any(o[0] == "s" for o in ops):
+            if any(o[0] in "se" for o in ops):
                 continue   # with a replaced line-up a restored object rebuilds its id table from the list in force (C18's known finding): labels are C18's subject
             if ids != {cal.samplers_id_table[C.sampler_class(exp["cls"]).__name__]}:
                 v.append(("rr-label", f"ops={ops}: batch {i} labelled {ids}, sampler class {exp['cls']} has id {cal.samplers_id_table[C.sampler_class(exp['cls']).__name__]}"))
@@ -252,6 +261,9 @@ def main(ctx):
     for lu in ([{"cls": "Halton", "bs": 1}, {"cls": "RandomUniform", "bs": 2}, {"cls": "RSequence", "bs": 1}], [{"cls": "RandomUniform", "bs": 2}, {"cls": "Halton", "bs": 1}]):
         for k in range(0, len(conv), 60):
             cells.append({"kind": "rr", "cfg": {"lineup": lu, "seed": S, "dims": 2, "model": "const2", "real_const": 0.25, "convergence_precision": 0, "ensemble": 1}, "histories": conv[k:k + 60]})
+    # the caller edits the list object he passed at construction
+    eh = [list(h) for L_ in range(2, 5) for h in itertools.product(("c1", "c2", "r", "e0", "e1"), repeat=L_) if h[0][0] == "c" and h[-1][0] == "c" and sum(o[0] == "e" for o in h) == 1]
+    cells.append({"kind": "rr", "cfg": {"lineup": [{"cls": "Halton", "bs": 2}, {"cls": "RandomUniform", "bs": 3}], "edit_list": True, "seed": S, "dims": 2, "model": "const2", "ensemble": 1}, "histories": eh})
     # the same sampler OBJECT listed at several positions (a double share of the batches)
     for lu, same in (([{"cls": "Halton", "bs": 2}, {"cls": "RandomUniform", "bs": 1}, {"cls": "RandomUniform", "bs": 1}], {"2": 1}),
                      ([{"cls": "RSequence", "bs": 1}, {"cls": "Halton", "bs": 3}, {"cls": "RSequence", "bs": 1}, {"cls": "Halton", "bs": 3}], {"2": 0, "3": 1})):
